@@ -352,7 +352,8 @@ func (gr *WordIterator) Next() bool {
 	}
 
 	if gr.inWord { // we are have reached the END of a word
-		gr.inWord = false
+		// the next segment may also be a word
+		gr.inWord = gr.pos < len(gr.src.text) && unicode.Is(ucd.Word, gr.src.text[gr.pos])
 		return true
 	}
 
